@@ -184,6 +184,8 @@ def run(ctx):
     header_cases(ctx, res)
     settings_assignment_cases(ctx, res)
     xsitype_content_cases(ctx, res)
+    wildcard_namespace_cases(ctx, res)
+    first_use_race_cases(ctx, res)
     if pending:
         res.sample(dict(document=pending[len(pending) // 2][3]["document"][:500], strict=pending[len(pending) // 2][3]["strict"]))
     res.exhaustive = True
@@ -418,6 +420,143 @@ def xsitype_content_cases(ctx, res):
                     res.failures.append(dict(what="non-strict mode dropped the element inside xsi:typed content without trace: %r" % (v,), case=c))
 
 
+def value_mentions(v, text):
+    """does `text` occur anywhere in the decoded value (leaf values, raw elements kept by wildcards)?"""
+    if hasattr(v, "__values__"):
+        return any(value_mentions(x, text) for x in v.__values__.values())
+    if isinstance(v, dict):
+        return any(value_mentions(x, text) for x in v.values())
+    if isinstance(v, (list, tuple)):
+        return any(value_mentions(x, text) for x in v)
+    if isinstance(v, etree._Element):
+        return any(text in t for t in v.itertext())
+    if type(v).__name__ == "AnyObject":
+        return value_mentions(v.value, text)
+    return isinstance(v, str) and text in v
+
+
+NSANY_XSD = ('<xs:schema xmlns:xs="http://www.w3.org/2001/XMLSchema" xmlns:t="urn:fam" targetNamespace="urn:fam" elementFormDefault="qualified">'
+             '<xs:element name="known" type="xs:string"/>'
+             '<xs:element name="root"><xs:complexType><xs:sequence><xs:element name="a" type="xs:string"/>'
+             '<xs:any namespace="%s" processContents="lax" minOccurs="0" maxOccurs="%s"/>%s</xs:sequence></xs:complexType></xs:element></xs:schema>')
+
+
+def wildcard_namespace_cases(ctx, res):
+    """an element at the position of a wildcard with a namespace constraint, from a namespace the constraint excludes: whether the
+    decoder honours the constraint or not, the element is either refused or kept in the value - it does not vanish"""
+    import zeep.xsd
+    tail = '<xs:element name="tail" type="xs:string" minOccurs="0"/>'
+    strays = {"target": "<f:bogus>BOGUS</f:bogus>", "local": "<bogus>BOGUS</bogus>", "foreign": '<s:bogus xmlns:s="urn:stray">BOGUS</s:bogus>'}
+    ok_items = {"##other": '<e:ext xmlns:e="urn:ext">1</e:ext>', "##targetNamespace": "<f:known>1</f:known>", "##local": "<plain>1</plain>",
+                "urn:ext urn:ext2": '<e:ext xmlns:e="urn:ext">1</e:ext>', "##any": '<e:ext xmlns:e="urn:ext">1</e:ext>'}
+    excluded = {"##other": ("target", "local"), "##targetNamespace": ("foreign", "local"), "##local": ("target", "foreign"),
+                "urn:ext urn:ext2": ("target", "local", "foreign"), "##any": ()}
+    for ns in ok_items:
+        for mx in ("1", "unbounded"):
+            for with_tail in (False, True):
+                zs = zeep.xsd.Schema(etree.fromstring((NSANY_XSD % (ns, mx, tail if with_tail else "")).encode()))
+                root = zs.get_element("{urn:fam}root")
+                for which in excluded[ns] + ("none",):
+                    for before in ((False, True) if mx == "unbounded" else (False,)):
+                        kids = (ok_items[ns] if before else "") + (strays[which] if which != "none" else ok_items[ns]) + ("<f:tail>t</f:tail>" if with_tail else "")
+                        doc = '<f:root xmlns:f="urn:fam"><f:a>1</f:a>%s</f:root>' % kids
+                        for strict in (True, False):
+                            res.case(key=("wildcard-namespace", ns, mx, with_tail, which, before, strict), nontrivial=True)
+                            res.count("hand:wildcard-namespace:" + ns)
+                            c = dict(kind="hand", probe="wildcard-namespace", namespace=ns, max_occurs=mx, tail=with_tail, stray=which, strict=strict, document=doc)
+                            try:
+                                with zs.settings(strict=strict):
+                                    v = root.parse(etree.fromstring(doc.encode()), zs)
+                            except Exception as e:  # noqa
+                                if which == "none":
+                                    res.failures.append(dict(what="content the wildcard allows is refused: %s: %s" % (type(e).__name__, e), case=c))
+                                continue
+                            if which != "none" and not value_mentions(v, "BOGUS"):
+                                res.failures.append(dict(what="an element outside the wildcard's namespace constraint vanished: decoding succeeded (%s) and the value does not hold it"
+                                                              % ("strict" if strict else "non-strict"), case=c))
+
+
+RACE_XSD = ('<xs:schema xmlns:xs="http://www.w3.org/2001/XMLSchema" xmlns:t="urn:fam" targetNamespace="urn:fam" elementFormDefault="qualified">'
+            '<xs:element name="root" type="t:T1"/>'
+            '<xs:complexType name="T1"><xs:sequence><xs:element name="a" type="xs:string"/><xs:element name="inner" type="t:T2" minOccurs="0"/>'
+            '<xs:choice minOccurs="0"><xs:element name="c1" type="xs:string"/><xs:element name="c2" type="t:T2"/></xs:choice></xs:sequence></xs:complexType>'
+            '<xs:complexType name="T2"><xs:sequence><xs:element name="x" type="xs:string"/></xs:sequence></xs:complexType></xs:schema>')
+
+
+def first_use_race_cases(ctx, res):
+    """two threads decode the FIRST replies of a freshly compiled schema at the same time: thread A is stopped inside a lazily
+    computed member table (elements / elements_nested / attributes), thread B decodes a reply with a stranger, A continues.
+    B's outcome is the outcome of a single-threaded decode with a fresh schema (rejected when strict, kept when not)."""
+    import sys
+    import linecache
+    import threading
+    import zeep.xsd
+    ok_doc = '<f:root xmlns:f="urn:fam"><f:a>1</f:a><f:inner><f:x>x</f:x></f:inner></f:root>'
+    docs = {"stranger-in-root": '<f:root xmlns:f="urn:fam"><f:a>1</f:a><f:stranger>s</f:stranger></f:root>',
+            "stranger-in-inner": '<f:root xmlns:f="urn:fam"><f:a>1</f:a><f:inner><f:x>x</f:x><f:stranger>s</f:stranger></f:inner></f:root>'}
+
+    def decode(zs, text, strict):
+        try:
+            with zs.settings(strict=strict):
+                v = zs.get_element("{urn:fam}root").parse(etree.fromstring(text.encode()), zs)
+            return ["ok", enginea.canon_value(v)]
+        except Exception as e:  # noqa
+            return [type(e).__name__, None]
+    lazy = ("elements", "elements_nested", "attributes")
+    for label, doc in docs.items():
+        for strict in (True, False):
+            want = decode(zeep.xsd.Schema(etree.fromstring(RACE_XSD.encode())), doc, strict)
+            for k in range(8):
+                zs = zeep.xsd.Schema(etree.fromstring(RACE_XSD.encode()))
+                a_in, b_done = threading.Event(), threading.Event()
+                state = {"paused": False, "seen": 0, "where": None}
+                out = {}
+
+                def local(frame, event, arg):
+                    if event == "line" and not state["paused"]:
+                        src = linecache.getline(frame.f_code.co_filename, frame.f_lineno).strip()
+                        if src.startswith("for "):
+                            state["paused"] = True
+                            state["where"] = "%s:%s" % (frame.f_code.co_name, frame.f_lineno)
+                            a_in.set()
+                            b_done.wait(10)
+                    return local
+
+                def tracer(frame, event, arg):
+                    if event == "call" and not state["paused"] and frame.f_code.co_name in lazy and "/zeep/xsd/" in frame.f_code.co_filename:
+                        state["seen"] += 1
+                        if state["seen"] > k:
+                            return local
+                    return tracer
+
+                def run_a():
+                    sys.settrace(tracer)
+                    try:
+                        out["A"] = decode(zs, ok_doc, True)
+                    finally:
+                        sys.settrace(None)
+                        a_in.set()
+
+                def run_b():
+                    a_in.wait(10)
+                    try:
+                        out["B"] = decode(zs, doc, strict)
+                    finally:
+                        b_done.set()
+                ta, tb = threading.Thread(target=run_a), threading.Thread(target=run_b)
+                ta.start(); tb.start(); ta.join(20); tb.join(20)
+                if not state["paused"]:
+                    break
+                res.case(key=("first-use-race", label, strict, k), nontrivial=True)
+                res.count("hand:first-use-race")
+                c = dict(kind="hand", probe="first-use-race", stranger=label, strict=strict, pause=k, paused_at=state["where"])
+                if out.get("B") != want:
+                    res.failures.append(dict(what="a reply with an undeclared element decoded while another thread was computing a member table of the "
+                                                  "schema for the first time (%s): outcome %r, single-threaded %r" % (state["where"], out.get("B"), want), case=c))
+                if out.get("A", [None])[0] != "ok":
+                    res.failures.append(dict(what="the valid reply decoded by the paused thread is refused: %r" % (out.get("A"),), case=c))
+
+
 def contains_stranger_or_note(v):
     if isinstance(v, dict):
         if "__xml__" in v:
@@ -561,6 +700,8 @@ def replay(ctx, payload):
         hand_cases(ctx, r)
         settings_assignment_cases(ctx, r)
         xsitype_content_cases(ctx, r)
+        wildcard_namespace_cases(ctx, r)
+        first_use_race_cases(ctx, r)
         bad = [f for f in r.failures if f["case"].get("probe") == c.get("probe")]
         return (not bad), "hand-written probe rerun: %s" % (bad[0]["what"] if bad else "holds")
     if c.get("kind") == "nil-complex":
